@@ -27,6 +27,8 @@ pub fn cfg() -> GenCfg {
         max_comp_depth: 3,
         p_surplus: 40,
         fk_to_null: true,
+        hyphen_keys: true,
+        hyphen_vars: true,
         ..GenCfg::default()
     }
 }
